@@ -344,7 +344,8 @@ PartialLiquidationReply(W, input, output) ==
       wd == Withdraw(W, by, fee, 0)
   IN IF ~W.eng.tmp.swap \/ ~W.eng.tmp.liq THEN Fail(W, "no_tmp")
      ELSE IF Bad(nmargin) \/ Bad(nnot) THEN Fail(W, "underflow")
-     ELSE Done([SetPos(W, v, t, [p EXCEPT !.size = nsize, !.margin = nmargin, !.notional = nnot])
+     ELSE Done([SetPos(W, v, t, [p EXCEPT !.size = nsize, !.margin = nmargin, !.notional = nnot,
+                                               !.blk = W.blk.h])     \* fix F15: the update is stamped
                   EXCEPT !.eng.st.bad_debt = IF fee # 0 THEN wd.bad ELSE W.eng.st.bad_debt,
                          !.eng.tmp.swap = FALSE, !.eng.tmp.liq = FALSE,
                          !.eng.tmpd.swap = NoTmpd.swap, !.eng.tmpd.liq = "",
